@@ -135,7 +135,7 @@ for (nm, tier, props) in (
 
 # S10 clone / drop / unsubscribe
 for fl in ("bcast", "mpmc"):
-    _k("s10_clone_send_%s_n2" % fl, MQ_S, "S", ["C07", "C09", "C12", "C16"], "quick", "N=2, 1 stream")
+    _k("s10_clone_send_%s_n2" % fl, MQ_S, "S", ["C01", "C02", "C03", "C07", "C09", "C12", "C16"], "quick", "N=2, 1 stream")
     _k("s10_drop_send_%s_n2" % fl, MQ_S, "S", ["C07", "C08", "C09", "C12", "C14", "C16", "C17"], "quick", "N=2, 1 stream")
     _k("s10_clone_recv_%s_n2" % fl, MQ_S, "S", ["C01", "C09", "C11", "C12", "C16"], "quick", "N=2")
 _k("s10_drop_recv_bcast_n2_k1", MQ_S, "S", ["C05", "C09", "C11", "C12", "C13", "C16", "C17"], "quick", "N=2, 1 stream, <=3 consumers")
